@@ -2,6 +2,11 @@
 From InfOCF Require Import Core Tol Form Model Manager ThmManager.
 From InfOCFProps Require Import Ex.
 From Coq Require Import Permutation.
+From InfOCF Require Import PyLib PyStr TieDisp.
+From InfOCFGen Require Import SrcDisp.
+Local Open Scope list_scope.
+Notation length := List.length.
+Notation concat := List.concat.
 
 (* for every history of inference() calls on one manager - sequential batches and parallel batches with ANY completion
    order of the workers, repeated and duplicate query texts, arbitrary keys (distinct within a parallel batch) - every
@@ -30,3 +35,19 @@ Example birds_history :
   run_calls 4 SysW false birds st0 [CSeq [(7, q_fp); (3, q_wp); (9, q_fp)]; CPar [(1, q_wp); (2, q_nfp)] [(2, q_nfp); (1, q_wp)]; CSeq [(5, q_wp)]]
   = [Some [(7, q_fp, false); (3, q_wp, true); (9, q_fp, false)]; Some [(1, q_wp, true); (2, q_nfp, true)]; Some [(5, q_wp, true)]].
 Proof. vm_compute. reflexivity. Qed.
+
+(* SOURCE TIE.  create_inference_instance is GENERATED on every run from /repo's inference_manager.py (coq/gen/SrcDisp.v).  Which operator class
+   answers the queries of a manager is a function of the two configured names alone - the inference system and, for System W and
+   lexicographic inference, whether the partial-MaxSAT back-end is "z3" - so every call on a manager, whatever its batch, position or
+   history, is answered by the same class (whose _inference is tied to the model in C01-C05, C11); an unknown system name raises. *)
+Theorem C13_source_dispatch_is_a_function_of_the_names : forall n sys pm smt bb,
+  py_create_inference_instance n sys pm smt bb tt = match dispatch sys pm with Some c => Return c | None => Raise end.
+Proof. exact tie_dispatch. Qed.
+Print Assumptions C13_source_dispatch_is_a_function_of_the_names.
+Theorem C13_source_dispatch_table :
+  dispatch "p-entailment" "rc2" = Some OpPEntailment /\ dispatch "system-z" "rc2" = Some OpSystemZ /\
+  dispatch "system-w" "rc2" = Some OpSystemW /\ dispatch "system-w" "rc2-g3" = Some OpSystemW /\ dispatch "system-w" "z3" = Some OpSystemWZ3 /\
+  dispatch "lex_inf" "rc2" = Some OpLexInf /\ dispatch "lex_inf" "z3" = Some OpLexInfZ3 /\ dispatch "c-inference" "rc2" = Some OpCInference /\
+  dispatch "system-p" "rc2" = None.
+Proof. exact dispatch_table. Qed.
+Print Assumptions C13_source_dispatch_table.
